@@ -752,9 +752,17 @@ class FormSum(BaseForm):
             if bool(w == 1):
                 return a
 
-        return super().__new__(cls)
+        # construct and initialise a new FormSum object
+        self = super().__new__(cls)
+        self._init(*args)
+        return self
 
     def __init__(self, *components):
+        """Initialise."""
+        # Python calls __init__ also on an existing FormSum returned from
+        # __new__ (FormSum((s, 1.0)) -> s): nothing must be reset here
+
+    def _init(self, *components):
         """Initialise."""
         BaseForm.__init__(self)
 
